@@ -2,8 +2,9 @@
 //
 // op lines
 //   cg  <g:vec> <B:n*n doubles, row-major> <Δ> <tol_scale> <tol_scale_root> <tol_max> <max_iter_factor>
-//       -> <value> <step:vec> <#hess_prod(d,Bd)> <#hess_prod(p,work_eval)> <z:vec> <r:vec> <d:vec> <negSeen>
-//          (negSeen: some product `hess_prod(d, Bd)` had d·Bd <= 0 — observed by the callback, for the monitor)
+//       -> <value> <step:vec> <#hess_prod(d,Bd)> <#hess_prod(p,work_eval)> <z:vec> <r:vec> <d:vec> <dsqNeg>
+//          (dsqNeg: ‖d‖² at the product `hess_prod(d, Bd)` that had d·Bd <= 0, `none` if there was none —
+//           observed by the callback, for the monitor)
 //   ntr <p:vec> <H:n*n> <nJ> <J…> <γ> <hessian_vec_factor> <radius> <tol_scale> <tol_scale_root> <tol_max> <max_iter_factor>
 //       -> <value> <q:vec> <#eval_hess_ψ_prod> <qJ:vec>      | exception
 // The Hessian product is a left fold per row (first product, then `acc + B(i,j) * v(j)`), which
@@ -81,12 +82,15 @@ int main() {
                 vec step = vec::Constant(n, 12345.);
                 long nBd = 0, nEval = 0, nOther = 0;
                 bool negSeen = false;
+                real_t dsqNeg = -1;
                 auto hess_prod = [&](crvec v, rvec Bv) {
                     B.mul(v, Bv);
                     if (Bv.data() == cg.Bd.data()) {
                         ++nBd;
-                        if (v.dot(Bv.topRows(n)) <= 0)
+                        if (!negSeen && v.dot(Bv.topRows(n)) <= 0) {
                             negSeen = true;
+                            dsqNeg  = v.squaredNorm();
+                        }
                     } else if (Bv.data() == cg.work_eval.data())
                         ++nEval;
                     else
@@ -95,7 +99,7 @@ int main() {
                 real_t val = cg.solve(g, hess_prod, Δ, step);
                 std::cout << vp::f2h(val) << ' ' << vp::fmtv(step) << ' ' << nBd << ' ' << nEval + 1000 * nOther
                           << ' ' << vp::fmtv(cg.z.topRows(n)) << ' ' << vp::fmtv(cg.r.topRows(n)) << ' ' << vp::fmtv(cg.d.topRows(n)) << ' '
-                          << (negSeen ? 1 : 0) << '\n';
+                          << (negSeen ? vp::f2h(dsqNeg) : std::string("none")) << '\n';
             } else if (op == "ntr") {
                 vec p  = t.vec();
                 long n = p.size();
